@@ -165,10 +165,10 @@ func staticQuery(t *rapid.T, label string, level [][]string) string {
 	return strings.Join(parts, "&")
 }
 
-func callerQuery(level [][]string) []QV {
+func callerQuery(t *rapid.T, level [][]string) []QV {
 	var out []QV
 	for _, kv := range level {
-		q := QV{Key: kit.BStr(kv[0])}
+		q := QV{Key: kit.BStr(kv[0]), ByAuth: rapid.IntRange(0, 3).Draw(t, "set-by-auth-writer") == 0}
 		for _, v := range kv[1:] {
 			q.Vals = append(q.Vals, kit.BStr(v))
 		}
@@ -219,7 +219,7 @@ func GenPath(t *rapid.T) Case {
 	if rapid.IntRange(0, 3).Draw(t, "withq") == 0 {
 		c.BaseQuery = staticQuery(t, "bq", genLevel(t, "bq", 2))
 		c.PatQuery = staticQuery(t, "pq", genLevel(t, "pq", 2))
-		c.Query = callerQuery(genLevel(t, "cq", 2))
+		c.Query = callerQuery(t, genLevel(t, "cq", 2))
 	}
 	genSchemes(t, &c)
 	return c
@@ -232,7 +232,7 @@ func GenQuery(t *rapid.T) Case {
 	genOrders(t, &c)
 	c.BaseQuery = staticQuery(t, "bq", genLevel(t, "bq", 4))
 	c.PatQuery = staticQuery(t, "pq", genLevel(t, "pq", 4))
-	c.Query = callerQuery(genLevel(t, "cq", 4))
+	c.Query = callerQuery(t, genLevel(t, "cq", 4))
 	genSchemes(t, &c)
 	return c
 }
@@ -240,7 +240,7 @@ func GenQuery(t *rapid.T) Case {
 const rule = "base paths (empty, '/', 1-2 literal segments, with/without leading and trailing slash, with a static query) x patterns (1-4 segments: literals, {name}, " +
 	"in-segment placeholders, with/without leading and trailing slash, embedded static query) x values (hostile table: '/', '?', '#', '%', '..', empty, non-ASCII, invalid UTF-8, " +
 	"control bytes, texts that spell this operation's placeholders; random runes and bytes) x SetPathParam orders (drawn, reversed, permuted; names the pattern lacks) " +
-	"x caller query sets colliding with the static ones x scheme lists on transport and operation x hosts; " +
+	"x caller query sets (from the parameter writer or from the operation's auth writer) colliding with the static ones x scheme lists on transport and operation x hosts; " +
 	"oracle = model from the statement judged on URL.EscapedPath/RawQuery/Scheme/Host with net/url as decoder (segment count and literals, PathUnescape(segment) = value, " +
 	"trailing slash iff the pattern has one, same URL for every order and rebuild, URL text reads back identically, query = caller over pattern over base by key, https among several else first else http); " +
 	"non-trivial = a value needs escaping or spells a placeholder, or a query key occurs at >=2 levels, or >=2 schemes are offered; distinct by hash of the whole case"
